@@ -8,7 +8,7 @@ from ..seams import LIB_ERRORS
 from ..core import real
 from ..oracle import (ACCEPT, REJECT, EITHER, slack3, slack_tripped_int, and3,
                       verdict3, validsig, sha256, shake256, pubkey_of_seed,
-                      bool_of, base_mult, point_add, as_key_arg, PREFIXES, DECORATIONS)
+                      bool_of, base_mult, point_add, as_key_arg, PREFIXES, DECORATIONS, SUFFIXES)
 
 PID = 'C15'
 ISOLATE = True      # one forked process per run: nothing a run does to process-global
@@ -37,7 +37,7 @@ REQUIRED_PROBES = ['refund_at_deadline', 'refund_deadline_minus_1', 'claim_after
                    'digest_param', 'hash_size_1', 'hash_size_16', 'hash_size_20',
                    'hash_size_32', 'hash_size_64', 'step_between_reads', 'corrupt_sig',
                    'corrupt_preimage', 'corrupt_pubkey', 'corrupt_selector', 'threshold_per_call',
-                   'default_timestamp', 'crafted_witness', 'witness_with_code']
+                   'default_timestamp', 'crafted_witness', 'witness_with_code', 'witness_ending_in_return']
 
 LKINDS = ['htlc_sha', 'htlc_shake', 'htlc2_sha', 'htlc2_shake', 'ptlc', 'ptlc_tweak']
 WKINDS = ['htlc', 'htlc2', 'ptlc', 'ptlc_refund']
@@ -126,7 +126,7 @@ def gen_step(rng, cell, oid, out, clocks, vname, thr, fault_free):
             # keys handed to the builders as bytes or as PyNaCl objects; a neutral
             # script prefix before the signing operation
             'keys': rng.choice(['bytes', 'bytes', 'object']), 'prefix': rng.choice(PREFIXES),
-            'decor': rng.choice(DECORATIONS)}
+            'decor': rng.choice(DECORATIONS), 'suffix': rng.choice(SUFFIXES)}
     if not fault_free:
         r = rng.below(10)
         if r == 0:
@@ -359,8 +359,8 @@ def execute(plan, run):
             p = b'\x00' if pre != b'\x00' else b'\x01'
         else:                       # outsider uses whatever the ledger revealed
             p = revealed.get(step['out'])
-            if p is None:
-                p = b'\x00'
+            if not p:
+                p = b'\x00'     # (nothing revealed yet, or an empty item: not pushable)
             else:
                 run.probe('outsider_with_revealed_preimage')
         CLOCK.latency_us = 0
@@ -410,11 +410,19 @@ def execute(plan, run):
         if step.get('decor'):
             run.probe('witness_with_code')
             w = T.Script('# decorated witness #', T.compile_script(step['decor']) + w.bytes)
+        if step.get('suffix'):
+            run.probe('witness_ending_in_return')
+            w = T.Script('# witness + return #', w.bytes + T.compile_script(step['suffix']))
+            extra = [b'\xff'] if step['suffix'].startswith('true') else \
+                [b'\x00'] if step['suffix'].startswith('false') else []
+            items = items + extra
         cache_in = dict(sf) if step.get('default_t') else {**sf, 'timestamp': step['t']}
         CLOCK.latency_us = kn['latency_us']
         CLOCK.begin_call(step['validator'], step['faults'])
         try:
-            if step.get('via') == 'additional':
+            # (a witness ending in OP_RETURN must not be concatenated with the lock --
+            # that would be the concatenation attack run_auth_scripts exists to prevent)
+            if step.get('via') == 'additional' and not step.get('suffix'):
                 run.probe('threshold_per_call')
                 # ... while the process-wide default says something else
                 F.flags['ts_threshold'] = step.get('gthr', 60)
@@ -438,6 +446,8 @@ def execute(plan, run):
             run.probe('default_timestamp')
             step = dict(step, t=int(reads[0]) if reads else 0)
         mdl = model(out, created, keys, items, step['t'], reads, step['thr'])
+        if step.get('suffix') and mdl == ACCEPT:
+            mdl = EITHER        # soundness only (see oracle.SUFFIXES)
         t = step['t']
         lk = out['kind']
 
@@ -462,7 +472,7 @@ def execute(plan, run):
         native = step['wkind'] == NATIVE[lk] or (
             lk.startswith('ptlc') and step['wkind'] == 'ptlc_refund')
         tiny = lk.endswith('shake') and out['hash_size'] < 16
-        if native and not cor and not tiny:
+        if native and not cor and not tiny and not step.get('suffix'):
             who = step['actor']
             flag_ok = (int(step['flag'], 16) & ~int(out['allowed'], 16) & 0xff) == 0
             if lk.startswith('htlc'):
